@@ -264,3 +264,5 @@ def run(repo: Repo, rep: Report, tier: str) -> None:
     from .shared import borrow as _borrow18
     _borrow18(repo, rep, "C09", "C09-R2", "C18-R8", "grid poles are fixed obstacles: they stay where the grid put them through position optimisation, on the decomposition path too "
               "(a shifted pole covers nothing and is trimmed)", select=lambda o: "preserves fixed positions" in o.construct or "fixed" in o.construct, floor=1)
+    _borrow18(repo, rep, "C09", "C09-R4", "C18-R9", "adding poles changes nothing else: only the grid's own poles are ever trimmed or offered as relays — the flag that marks them is set by "
+              "the power planner alone", select=lambda o: "may mark a placement as a grid pole" in o.construct or "is_power_pole" in o.construct, floor=1)
